@@ -26,7 +26,9 @@ def norm(text, root):
 
 def run_cmd(op, idx):
     """A command on a private copy of the project; outcome = files + stdout + outcome kind."""
-    root = os.path.realpath(os.path.join("/dev/shm", "cddsim-%d-c10-%d" % (os.getpid(), idx)))
+    # operations carrying the same "root_tag" work at the SAME path one after the other (a project directory that is
+    # converted again after an edit); all others get a path of their own
+    root = os.path.realpath(os.path.join("/dev/shm", "cddsim-%d-c10-%s" % (os.getpid(), op.get("root_tag") or idx)))
     if os.path.exists(root):
         shutil.rmtree(root)
     os.makedirs(root)
@@ -41,6 +43,9 @@ def run_cmd(op, idx):
             os.makedirs(os.path.dirname(full), exist_ok=True)
             with open(full, "w") as f:
                 f.write(text)
+            if op.get("mtime"):
+                # timestamps preserved by the tool that put the files there (cp -p, rsync -t, tar, a checkout)
+                os.utime(full, (op["mtime"], op["mtime"]))
         if op.get("sys_path"):
             added_path = os.path.join(root, op["sys_path"])
             sys.path.insert(0, added_path)
